@@ -139,6 +139,36 @@ def run(ctx, out):
             muts = [e for e in r.trace if xcp.is_mutating(e) and "/.sup" not in e["p1"] and (e.get("ret") or 0) >= 0]
             if muts and not why:
                 out.violation("self-copy (%s) issued a mutating call: %s %s" % (label, muts[0]["sys"], muts[0]["p1"]), rep)
+            # (a') the same alias invocation with one errno injected at each of its calls: a failed
+            # probe must never turn the refusal into a truncation of the source
+            if label in ("dotslash", "symlink", "hardlink", "tree-hardlinked", "dir-via-symlink", "among-valid", "backup-alias"):
+                calls = [e for e in r.trace if "/.sup" not in e["p1"] and e["sys"] not in
+                         ("close", "exit_group", "clone3", "clone", "umask") and not xcp.is_mutating(e)]
+                seen = {}
+                pts = []
+                for e in calls:
+                    key = (e["sys"], e["p1"])
+                    seen[key] = seen.get(key, 0) + 1
+                    pts.append((e["sys"], e["p1"], seen[key]))
+                if quick:
+                    pts = [p for i, p in enumerate(pts) if p[0] in ("statx", "newfstatat") or i % 3 == 0]
+                for i, (sysn, path, nth) in enumerate(pts):
+                    shutil.rmtree(d, ignore_errors=True)
+                    os.makedirs(d)
+                    alias_world(d)
+                    before = src_snapshot(d, [])
+                    errno = [5, 13, 24][i % 3]
+                    rf = xcp.run_supervised(sup, argv, d, d, rules=[("fail", errno, 0, sysn, nth, path)], tag="af", timeout_ms=20000)
+                    after = src_snapshot(d, [])
+                    out.case(("alias-fault", label, driver, sysn, path[len(d):], nth), True)
+                    out.count("alias_fault_points")
+                    why = cmp_snap(before, after)
+                    if label == "among-valid" and why and "appeared" in why:
+                        why = None
+                    if why:
+                        out.violation("self-copy (%s) with errno %d injected at %s #%d on %s: %s"
+                                      % (label, errno, sysn, nth, path[len(d):], why),
+                                      dict(rep, point=(sysn, path, nth, errno)))
             shutil.rmtree(d, ignore_errors=True)
     # ---- (b)+(c) kill points and faults
     minputs, mobs = [], []
